@@ -16,6 +16,11 @@ Definition buf_apply (ev : event) (s : fstate) : option fstate :=
   | EvTrunc n =>
       if (length (f_bytes s) <? n)%nat then None       (* errTruncateRange *)
       else Some (mkF (firstn n (f_bytes s)) (f_pos s))
+  | EvResize n =>
+      let size := length (f_bytes s) in
+      if (n <? size)%nat then Some (mkF (firstn n (f_bytes s)) size)
+      else if (size <? n)%nat then Some (mkF (nwrite (n - 1) [x00] (f_bytes s)) n)
+      else Some (mkF (f_bytes s) size)
   end.
 
 Definition backend_apply (b : backend) (ev : event) (s : fstate) : option fstate :=
